@@ -61,7 +61,7 @@ func runGoCtx(c *core.Ctx) {
 				return
 			}
 			switch an.CalleeName(&call.Call) {
-			case "context.WithCancel", "context.WithTimeout", "context.WithDeadline", "context.WithCancelCause":
+			case "context.WithCancel", "context.WithTimeout", "context.WithDeadline", "context.WithCancelCause", "context.WithTimeoutCause", "context.WithDeadlineCause":
 			default:
 				return
 			}
